@@ -25,9 +25,16 @@ type MRec struct {
 type Model struct {
 	Recs    map[string]*MRec
 	NextVer int
+	// Writer remembers which operation kind wrote each present record last. It is part of the canonical state
+	// (when WriterInKey is set): implementations keep hidden per-path bookkeeping (caches, indexes), so two
+	// histories with the same observable content but different writers are not merged by the search.
+	Writer      map[string]string
+	WriterInKey bool
+	WriterKeys  map[string]bool // nil: every key; else only these keys carry their writer in the canonical state
+	curKind     string
 }
 
-func NewModel() *Model { return &Model{Recs: map[string]*MRec{}} }
+func NewModel() *Model { return &Model{Recs: map[string]*MRec{}, Writer: map[string]string{}} }
 
 // Expire drops every record whose expiration time has passed at now.
 func (m *Model) Expire(now time.Time) {
@@ -39,6 +46,7 @@ func (m *Model) Expire(now time.Time) {
 }
 
 func (m *Model) write(k string, v []byte, exp *time.Time) int {
+	m.Writer[k] = m.curKind
 	m.NextVer++
 	m.Recs[k] = &MRec{Val: v, Ver: m.NextVer, Exp: exp}
 	return m.NextVer
@@ -218,6 +226,7 @@ type Want struct {
 
 // Apply advances the model by op and returns the prescription.
 func (m *Model) Apply(o Op, d0 *Driver) Want {
+	m.curKind = o.Kind
 	ex := func(e int) *time.Time { return d0.exp(e) }
 	switch o.Kind {
 	case "create":
@@ -504,6 +513,9 @@ func (m *Model) CanonKeyAt(d *Driver, keys []string, now time.Time) string {
 				}
 			}
 			fmt.Fprintf(&b, "%s/%s", string(r.Val), e)
+			if m.WriterInKey && (m.WriterKeys == nil || m.WriterKeys[k]) {
+				b.WriteString("<" + m.Writer[k])
+			}
 		}
 		if _, ok := d.Stale[k]; ok {
 			b.WriteString("+s")
@@ -533,6 +545,9 @@ func (m *Model) CanonKey(d *Driver, keys []string) string {
 				e = fmt.Sprint(r.Exp.Sub(d.Base))
 			}
 			fmt.Fprintf(&b, "%s/%s", v, e)
+			if m.WriterInKey && (m.WriterKeys == nil || m.WriterKeys[k]) {
+				b.WriteString("<" + m.Writer[k])
+			}
 		}
 		if _, ok := d.Stale[k]; ok {
 			b.WriteString("+s")
